@@ -149,6 +149,10 @@ class VartypeView:
     def energies(self, samples_like, dtype: DTypeLike = None):
         samples, labels = as_samples(samples_like, copy=True)
 
+        if samples.dtype.kind in 'bu':
+            # bool and unsigned integers cannot represent -1
+            samples = samples.astype(np.promote_types(samples.dtype, np.int8))
+
         if self._vartype is BINARY:  # binary -> spin
             samples *= 2
             samples -= 1
